@@ -346,17 +346,34 @@ def oracle(ck, torch, G, cfg):
     same = [all(torch.equal(x, y) for x, y in zip(outs[0], o)) for o in outs[1:]]
     if req == 'static' and not all(same):
         ck.fail(f'{key}/not-deterministic', 'a deterministic method returned different points on repeated get_examples() calls', inp)
-    if req == 'fresh':
+    if req == 'fresh' and cls != 'GND':
         if any(same) or all(torch.equal(x, y) for x, y in zip(outs[1], outs[2])):
             ck.fail(f'{key}/not-fresh', 'a method that must draw fresh points returned identical points on two get_examples() calls', inp)
-        elif cls != 'GND':
+        else:
             for k in range(dim):
                 if torch.equal(outs[0][k], outs[1][k]):
                     ck.fail(f'{key}/not-fresh', f'tensor {k} is identical on two get_examples() calls', inp)
+    if req == 'fresh' and cls == 'GND':
+        # The property speaks about POINTS: the sample as a whole must change.  Per axis, only axes whose
+        # reference noise std is not identically zero are required to move: 'uniform' axes get std 0 by
+        # design, and an exp-spaced axis has std |noise_rstd * node| (generators.py:529), which vanishes
+        # on the whole axis iff every reference node is exactly 0.0 (one node, at r_min = 0).
+        zero_std = [ms[k] == 'exp-spaced' and all(x == 0.0 for x in doc_nodes('exp-spaced', cfg['lo'][k], cfg['hi'][k], cfg['sizes'][k]))
+                    for k in range(dim)]
+        movable = [k for k in range(dim) if ms[k] != 'uniform' and not zero_std[k]]
+        identical = any(same) or all(torch.equal(x, y) for x, y in zip(outs[1], outs[2]))
+        if not movable and any(zero_std):
+            # every noisy axis is exp-spaced with its single node at 0: nothing can move (recorded open finding)
+            if identical:
+                ck.fail('GeneratorND/exp-spaced/noisy/not-fresh/all-nodes-zero',
+                        'GeneratorND(noisy=True) whose only noisy axes are exp-spaced with a single node at 0 returns identical points on every call '
+                        '(std = |noise_rstd * node| = 0)', inp)
+        elif identical:
+            ck.fail(f'{key}/not-fresh', 'a method that must draw fresh points returned identical points on two get_examples() calls', inp)
         else:
-            for k in range(dim):
-                if ms[k] != 'uniform' and torch.equal(outs[0][k], outs[1][k]):
-                    ck.fail(f'{key}/not-fresh', f'tensor {k} (noisy axis) is identical on two get_examples() calls', inp)
+            for k in movable:
+                if torch.equal(outs[0][k], outs[1][k]):
+                    ck.fail(f'{key}/not-fresh', f'tensor {k} (noisy axis with non-zero reference std) is identical on two get_examples() calls', inp)
     # ---- tensor-product structure and documented nodes
     if cls in ('G2D', 'G3D', 'GND') and not normal_noise(cls, m, noisy):
         ex = outs[0]
@@ -552,6 +569,14 @@ def probe_F8(ck, torch, G):
 
 # ----------------------------------------------------------------------------------------------
 
+ZERO_NODE_CFG = {'cls': 'GND', 'method': 'exp-spaced', 'noisy': True, 'sizes': [1], 'lo': [0.0], 'hi': [1.0]}
+
+
+def probe_zero_node(ck, torch, G):
+    """GeneratorND(grid=(1,), r_min=(0.0,), r_max=(1.0,), methods=['exp-spaced'], noisy=True): the open finding, every run."""
+    oracle(ck, torch, G, dict(ZERO_NODE_CFG))
+
+
 def run_oracle(ck, torch, G, quick, salt='oracle'):
     r = ck.rng(salt)
     dist = ck.extra.setdefault('input_distribution', {})
@@ -608,6 +633,7 @@ def main():
     T = ck.thorough()
     run_oracle(ck, torch, G, quick=not T)
     probe_F8(ck, torch, G)
+    probe_zero_node(ck, torch, G)
     if table is not None:
         cases, goals = [], []
         check_table_vs_acceptance(ck, G, table)
